@@ -180,9 +180,12 @@ def finish(ctx, meta, t0, seed=0, extra_cov=None):
         wall_s=round(time.time() - t0, 2),
         violations=len(new),
     )
-    os.makedirs(os.path.join(VERIF, "evidence"), exist_ok=True)
-    with open(os.path.join(VERIF, "evidence", prop + ".json"), "w") as f:
-        json.dump(ev, f, indent=1, sort_keys=False)
+    # mutation tooling (tools/runmut.py, tools/seed_check.sh) runs the check on a deliberately broken tree: such a
+    # run must not overwrite the evidence of the real tree
+    if not os.environ.get("VERIF_NO_EVIDENCE"):
+        os.makedirs(os.path.join(VERIF, "evidence"), exist_ok=True)
+        with open(os.path.join(VERIF, "evidence", prop + ".json"), "w") as f:
+            json.dump(ev, f, indent=1, sort_keys=False)
     print("%s: %d obligations, %d discharged, %d known finding(s), %d new violation(s) [%s, %s, %.1fs]" % (
         prop, len(obl), n_ok, len(known_hit), len(new), ctx.tier, ctx.config, time.time() - t0))
     return 1 if new else 0
